@@ -306,6 +306,16 @@ Theorem C20_analysis_more_rows : forall a k s, valid_analysis a -> n_selected (m
   (forall cs ci, validate_infidelity_derivative a' cs ci = Raise ValueError).
 Proof. exact analysis_more_rows. Qed.
 
+(* infidelity(which='correlations') when the pulse-correlation control matrix may be gone (cleanup('greedy')): accepted with
+   the control matrix cached, accepted for a traceless selection, CalculationError as soon as ONE selected operator has
+   non-zero trace -- at any position of the selection and whatever the other traces are (also when they cancel in the sum) *)
+Theorem C20_pc_infidelity_control_matrix_gone : forall x, pc_ready x ->
+  let sel := selected_traces (map n_id (p_n (a_pulse (pi_a x)))) (a_ids (pi_a x)) (pi_traces x) in
+  (pi_cm_cached x = true -> validate_pc_infidelity x = ok) /\
+  (pi_cm_cached x = false -> Forall (fun b => b = false) sel -> validate_pc_infidelity x = ok) /\
+  (pi_cm_cached x = false -> (exists i, i < length sel /\ nth i sel false = true) -> validate_pc_infidelity x = Raise CalculationError).
+Proof. exact pc_infidelity_spec. Qed.
+
 (* ---------------------------------------------------------------- caches, basis sizes, propagator times *)
 Theorem C20_cache_control_matrix : forall n_nops n_basis n_omega,
   validate_cache_control_matrix None n_nops n_basis n_omega = ok /\
